@@ -1,1 +1,142 @@
-// placeholder
+// K3: Datetime::from_str == O-dt (spec_datetime) -- included at the end of
+// crates/toml_datetime/src/datetime.rs under cfg(kani).  The crate forbids unsafe code, so
+// strings are built with str::from_utf8 (which also brings multi-byte characters in scope).
+mod verif_kani_datetime {
+    use super::*;
+    include!(concat!(env!("TOML_VERIF_KANI"), "/spec/oracles.rs"));
+    use o_dt::{spec_datetime, DtSpec};
+
+    fn to_spec(d: &Datetime) -> DtSpec {
+        DtSpec {
+            date: d.date.map(|x| (x.year, x.month, x.day)),
+            time: d.time.map(|t| (t.hour, t.minute, t.second, t.nanosecond)),
+            offset: d.offset.map(|o| match o {
+                Offset::Z => None,
+                Offset::Custom { minutes } => Some(minutes),
+            }),
+        }
+    }
+
+    /// the postcondition: from_str(s) == spec_datetime(s), field by field
+    fn check(bytes: &[u8]) {
+        check_cov(bytes, true)
+    }
+
+    fn check_cov(bytes: &[u8], expect_accept: bool) {
+        let s = match core::str::from_utf8(bytes) {
+            Ok(s) => s,
+            Err(_) => return,
+        };
+        let got = Datetime::from_str(s);
+        let want = spec_datetime(bytes);
+        match (&got, &want) {
+            (Ok(d), Some(w)) => {
+                let g = to_spec(d);
+                assert!(g.date == w.date, "date fields differ from the spec");
+                assert!(g.time == w.time, "time fields differ from the spec");
+                assert!(g.offset == w.offset, "offset differs from the spec");
+            }
+            (Err(_), None) => {}
+            (Ok(_), None) => assert!(false, "from_str accepts a string the date-time grammar rejects"),
+            (Err(_), Some(_)) => assert!(false, "from_str rejects a string the date-time grammar accepts"),
+        }
+        if expect_accept {
+            kani::cover!(got.is_ok(), "some string is accepted");
+        }
+        kani::cover!(got.is_err(), "some string is rejected");
+    }
+
+    #[kani::proof]
+    #[kani::unwind(5)]
+    fn k3_short() {
+        let a: [u8; 3] = kani::any();
+        let n: usize = kani::any();
+        kani::assume(n <= 3);
+        check_cov(&a[..n], false);
+    }
+
+    // every string of the remaining lengths below 10 (none is a date-time except 8 bytes)
+    #[kani::proof]
+    #[kani::unwind(8)]
+    fn k3_len4() { let a: [u8; 4] = kani::any(); check_cov(&a, false); }
+    #[kani::proof]
+    #[kani::unwind(8)]
+    fn k3_len5() { let a: [u8; 5] = kani::any(); check_cov(&a, false); }
+    #[kani::proof]
+    #[kani::unwind(9)]
+    fn k3_len6() { let a: [u8; 6] = kani::any(); check_cov(&a, false); }
+    #[kani::proof]
+    #[kani::unwind(10)]
+    fn k3_len7() { let a: [u8; 7] = kani::any(); check_cov(&a, false); }
+    #[kani::proof]
+    #[kani::unwind(12)]
+    fn k3_len9() { let a: [u8; 9] = kani::any(); check_cov(&a, false); }
+
+    #[kani::proof]
+    #[kani::unwind(10)]
+    fn k3_time8() {
+        let a: [u8; 8] = kani::any();
+        check(&a);
+    }
+
+    #[kani::proof]
+    #[kani::unwind(12)]
+    fn k3_date10() {
+        let a: [u8; 10] = kani::any();
+        check(&a);
+    }
+
+    // local time with fractional seconds: fixed valid prefix, symbolic fraction (bounded: prefix fixed)
+    fn frac<const K: usize>() {
+        let f: [u8; K] = kani::any();
+        let mut a = [0u8; 20];
+        a[..9].copy_from_slice(b"12:34:56.");
+        let mut i = 0;
+        while i < K {
+            a[9 + i] = f[i];
+            i += 1;
+        }
+        check(&a[..9 + K]);
+    }
+
+    #[kani::proof]
+    #[kani::unwind(22)]
+    fn k3_frac1() { frac::<1>(); }
+    #[kani::proof]
+    #[kani::unwind(22)]
+    fn k3_frac3() { frac::<3>(); }
+    #[kani::proof]
+    #[kani::unwind(22)]
+    fn k3_frac9() { frac::<9>(); }
+    #[kani::proof]
+    #[kani::unwind(22)]
+    fn k3_frac10() { frac::<10>(); }
+
+    // offset date-time: fixed valid local date-time, symbolic suffix (bounded: prefix fixed)
+    fn offset<const K: usize>() {
+        let f: [u8; K] = kani::any();
+        let mut a = [0u8; 26];
+        a[..19].copy_from_slice(b"2000-02-29T23:59:60");
+        let mut i = 0;
+        while i < K {
+            a[19 + i] = f[i];
+            i += 1;
+        }
+        check(&a[..19 + K]);
+    }
+
+    #[kani::proof]
+    #[kani::unwind(28)]
+    fn k3_offset1() { offset::<1>(); }
+    #[kani::proof]
+    #[kani::unwind(28)]
+    fn k3_offset6() { offset::<6>(); }
+
+    // date, delimiter, time: date and delimiter symbolic, time symbolic (19 symbolic bytes)
+    #[kani::proof]
+    #[kani::unwind(21)]
+    fn k3_datetime19() {
+        let a: [u8; 19] = kani::any();
+        check(&a);
+    }
+}
